@@ -25,6 +25,8 @@ func (self ValueAnyObject) Display() (string, *Interrupt) {
 		fields = append(fields, fmt.Sprintf("%s: %s", key, disp))
 	}
 
+	sort.Strings(fields)
+
 	return fmt.Sprintf("{\n    %s\n}", strings.Join(fields, ",\n    ")), nil
 }
 
